@@ -244,7 +244,9 @@ def splice_unicode(s, rng):
 
 # --------------------------------------------------------------------------- generate
 def generate(tier, rng):
+    global STALL
     quick = tier == "quick"
+    STALL = 45.0 if quick else 1800.0     # thorough parses whole error-heavy files (tests/math.mec needs minutes in the dev profile)
     files = mec_files()
     isrc = interpreter_sources()
     seen = set()
@@ -325,6 +327,15 @@ def generate(tier, rng):
         npre, cap = (60, 2500) if quick else (300, 12000)
         for k in prefix_positions(t, rng, npre, cap):
             add(emit(t[:k], stream="mec-prefix", file=os.path.relpath(p, REPO)))
+
+    # (7) every code-point prefix (cuts inside grapheme clusters included) of unicode-rich sources
+    rich = ["é\u0301x := 👨\u200d👩\u200d👧 + 1\r\ny\u0303 := \"e\u0301🇨🇦\" -- ❤\ufe0f\n├ a\n└ b\n",
+            "x := [1 2 3] -- 👍🏽\n名前 := \"값\"\n#️⃣ := ✓\n",
+            "# Títle\u0301\n\npara 🧑\u200d🚀 text\u0308\u0301 (a\u20dd)\r\n\r\n  Δ := √4 ⊕ π\n",
+            "| x<u8> é |\n| 1 \"🇨🇦\" |\n", "╭◉╮ ⸢ hé\u0301llo 😀 ⸢\n"]
+    for r in (rich if not quick else rich[:3]):
+        for k in range(1, len(r) + 1):
+            add(emit(r[:k], stream="cp-prefix"))
 
     # (6) fenced code blocks: mech blocks with good / broken code (finding fence-zero-range), ebnf blocks (finding ebnf-todo-panic)
     fence_tags = ["mech", "mec", "🤖", "mech:disabled", "mech:hidden", "mech:ns1", "mech {output: false}", "python", "", "ebnf", "eq", "mermaid", "mech:" ]
